@@ -229,6 +229,9 @@ func c08Run(c *Ctx) {
 	thorough := !c.Quick()
 	n := 0
 	run := func(g *gspec, fail []string) {
+		if !c.Unit() {
+			return
+		}
 		b := g.build()
 		for _, cont := range []bool{false, true} {
 			if c.Expired() {
